@@ -23,7 +23,8 @@ RULE = (
     "several components with different, overlapping and permuted argument lists, the same model name twice in one "
     "argument list, different functions with the same __name__ from two modules, functions whose names collide with the "
     "generator's 'init_' / '<reaction>_stoich_' prefixes, expressions that print with math.*; initial assignments on "
-    "variables and parameters; computed coefficients. non-trivial = model has a hostile assignment; distinct = model hash"
+    "variables and parameters; computed coefficients; functions that read module-level constants and class attributes, with "
+    "one generation made before those values change and the checked generation after. non-trivial = model has a hostile assignment; distinct = model hash"
 )
 ASSUMPTIONS = ["oracle: the original model and mon/refmodel at 4 random states", "generated numbers are printed with 15 significant digits: tolerance 1e-9"]
 N = {"quick": 300, "thorough": 6000}
@@ -43,7 +44,7 @@ def hostile(spec: dict, rng) -> list[str]:  # noqa: ANN001
     feats = []
     x = lambda: rng.choice(variables)  # noqa: E731
     k = lambda: rng.choice(params)  # noqa: E731
-    for kind in rng.sample(["shared", "permuted", "same_name", "dup_args", "sqrt", "prefix_collision", "ia_variable", "same_name_coef", "mirror_same_name", "same_name_other_arity"], rng.randint(1, 3)):
+    for kind in rng.sample(["shared", "permuted", "same_name", "dup_args", "sqrt", "prefix_collision", "ia_variable", "same_name_coef", "mirror_same_name", "same_name_other_arity", "module_state"], rng.randint(1, 3)):
         if kind == "shared":
             comps.append({"kind": "derived", "name": "hs1", "fn": L(tr.t_div), "args": [x(), k()]})
             comps.append({"kind": "derived", "name": "hs2", "fn": L(tr.t_div), "args": [k(), x()]})
@@ -70,6 +71,10 @@ def hostile(spec: dict, rng) -> list[str]:  # noqa: ANN001
             a = x()
             comps.append({"kind": "derived", "name": "hu1", "fn": L(tr.t_un), "args": [a, k()]})
             comps.append({"kind": "derived", "name": "hu2", "fn": L(tb.t_un), "args": [a]})
+        elif kind == "module_state":
+            a = x()
+            comps.append({"kind": "reaction", "name": "hms", "fn": L(tb.t_modconst), "args": [a, k()], "stoich": {a: -1.0}})
+            comps.append({"kind": "derived", "name": "hma", "fn": L(tb.t_modattr), "args": [x(), k()]})
         elif kind == "dup_args":
             s = x()
             comps.append({"kind": "derived", "name": "hd1", "fn": L(tr.t_mul), "args": [s, s]})
@@ -106,6 +111,24 @@ def run_case(case: dict) -> dict:
     viols: list[dict] = []
     counters: dict[str, int] = {}
     ctx = {"spec": spec, "hostile": hfeats}
+    if "module_state" in hfeats:
+        # one generation was already made in this process when the module-level values the functions read change:
+        # the source generated afterwards must describe the model as it now behaves
+        try:
+            generate_mxlpy_code(model)
+        except Exception:  # noqa: BLE001, S110
+            pass
+        tb.KSAT, tb.Settings.gain = round(rng.uniform(0.5, 3.0), 3), round(rng.uniform(0.5, 3.0), 3)
+        counters["generated_again_after_module_state_changed"] = 1
+    try:
+        return _run(case, rng, model, spec, hfeats, viols, counters, ctx)
+    finally:
+        tb.KSAT, tb.Settings.gain = 1.75, 2.0
+
+
+def _run(case: dict, rng, model, spec: dict, hfeats: list, viols: list, counters: dict, ctx: dict) -> dict:  # noqa: ANN001
+    from mxlpy.meta import generate_mxlpy_code
+
     try:
         code = generate_mxlpy_code(model)
     except Exception as e:  # noqa: BLE001
